@@ -42,6 +42,12 @@ pub struct BbCase {
 	/// a second certificate on a second account with this key type, in the same daemon
 	#[serde(default)]
 	pub second_account_key: Option<String>,
+	/// challenge hooks of this type end with this behaviour (exit:N / kill): (type, behaviour)
+	#[serde(default)]
+	pub fail_hook: Option<(String, String)>,
+	/// identifiers whose challenges the CA hands out as already `processing`
+	#[serde(default)]
+	pub processing: Vec<String>,
 }
 
 fn id_set() -> impl Strategy<Value = Vec<IdGen>> {
@@ -86,15 +92,17 @@ fn bb_strategy() -> impl Strategy<Value = BbCase> {
 		any::<bool>(),
 		any::<bool>(),
 		proptest::option::weighted(0.4, gen::key_type_strategy()),
+		(proptest::option::weighted(0.2, (proptest::sample::select(vec!["http-01", "dns-01", "tls-alpn-01"]), proptest::sample::select(vec!["exit:1", "exit:2", "exit:255", "kill"]))), proptest::collection::vec(any::<bool>(), 8)),
 	)
-		.prop_map(|(ids, picks, account_key, sh, offer, st, token_len, unknown_challenge, reverse, second_account_key)| {
+		.prop_map(|(ids, picks, account_key, sh, offer, st, token_len, unknown_challenge, reverse, second_account_key, (fail_hook, proc_mask))| {
 			let mut ids = ids;
 			if reverse {
 				ids.reverse();
 			}
 			let challenges: Vec<String> = ids.iter().enumerate().map(|(i, id)| super::c01::challenge_for(id, picks[i % picks.len()])).collect();
 			let initial = ids.iter().enumerate().filter(|(i, _)| st[i % st.len()] != "pending").map(|(i, id)| (id.expected.clone(), st[i % st.len()].to_string())).collect();
-			BbCase { ids, challenges, account_key, authz_shuffle: sh, offer: offer.iter().map(|s| s.to_string()).collect(), initial, token_len, unknown_challenge, second_account_key }
+			let processing = ids.iter().enumerate().filter(|(i, _)| proc_mask[i % 8] && i % 3 == 0).map(|(_, id)| id.expected.clone()).collect();
+			BbCase { ids, challenges, account_key, authz_shuffle: sh, offer: offer.iter().map(|s| s.to_string()).collect(), initial, token_len, unknown_challenge, second_account_key, fail_hook: fail_hook.map(|(t, b)| (t.to_string(), b.to_string())), processing }
 		})
 }
 
@@ -145,6 +153,7 @@ fn exec_bb_in(case: &BbCase, acmed: &std::path::Path, dir: &std::path::Path) -> 
 		authz_initial: case.initial.clone(),
 		token_len: case.token_len,
 		extra_unknown_challenge: case.unknown_challenge,
+		chall_processing: case.processing.clone(),
 		..CaPlan::default()
 	};
 	let ca = match MockCa::start(plan, vec![(bb::ident_key(&expected_ids), "c1".to_string()), (bb::ident_key(&[("dns".to_string(), "second.c05.test".to_string())]), "c2".to_string())]) {
@@ -161,11 +170,19 @@ fn exec_bb_in(case: &BbCase, acmed: &std::path::Path, dir: &std::path::Path) -> 
 			"identifiers": [{"dns": "second.c05.test", "challenge": "http-01"}]}));
 	}
 	let n_certs = certs.len();
+	let mut hook_defs = bb::std_hooks(&coll.sock);
+	if let Some((ty, beh)) = &case.fail_hook {
+		for h in hook_defs.iter_mut() {
+			if h["name"].as_str() == Some(format!("rec-{ty}").as_str()) {
+				h["args"][2] = json!(beh);
+			}
+		}
+	}
 	let cfg = json!({
 		"global": lay.global(),
 		"endpoint": [{"name": "e1", "url": ca.directory_url(), "tos_agreed": true}],
 		"account": accounts,
-		"hook": bb::std_hooks(&coll.sock),
+		"hook": hook_defs,
 		"certificate": certs,
 	});
 	let cfg_path = bb::write_config(dir, "acmed.toml", &cfg);
@@ -197,7 +214,8 @@ fn exec_bb_in(case: &BbCase, acmed: &std::path::Path, dir: &std::path::Path) -> 
 				Ok(x) => x,
 				Err(e) => return Outcome::Infra(e),
 			};
-			for id in ["challenge-http-01:c2", "challenge-http-01-clean:c2"] {
+			let c2_ids: Vec<&str> = if case.fail_hook.as_ref().map(|(t, _)| t == "http-01").unwrap_or(false) { vec!["challenge-http-01:c2"] } else { vec!["challenge-http-01:c2", "challenge-http-01-clean:c2"] };
+			for id in c2_ids {
 				match run.records.iter().find(|r| r.hook_id == id) {
 					None => return Outcome::fail("C05:hook-sequence", format!("hook {id} did not run{}", ctx_txt())),
 					Some(r) => {
@@ -231,13 +249,28 @@ fn exec_bb_in(case: &BbCase, acmed: &std::path::Path, dir: &std::path::Path) -> 
 			if a.challenges.iter().any(|c| c.posted_req.is_some()) {
 				return Outcome::fail("C05:unexpected-challenge-post", format!("a challenge of {} was declared ready although it should not be solved{}", id.expected, ctx_txt()));
 			}
-			if !stopped && a.initial_status != "valid" {
+			// a challenge the CA is already validating (left in flight earlier) completes on its own
+			let completes_alone = a.initial_status == "pending" && case.processing.contains(&a.ordered_value);
+			if !stopped && a.initial_status != "valid" && !completes_alone {
 				expect_success = false;
 				stopped = true;
 			}
 			continue;
 		}
 		let ch = offered.unwrap();
+		if case.fail_hook.as_ref().map(|(t, _)| t == ty).unwrap_or(false) {
+			// the challenge hook of this type fails hard: it ran, nothing else follows for this authorization
+			let got_ids: Vec<&str> = hooks.iter().map(|h| h.hook_id.as_str()).collect();
+			if got_ids != [format!("challenge-{ty}:c1").as_str()] {
+				return Outcome::fail("C05:hook-sequence", format!("authorization {ai} for {}: the challenge hook fails ({:?}); hooks run {got_ids:?}, expected only the challenge hook{}", id.expected, case.fail_hook, ctx_txt()));
+			}
+			if a.challenges.iter().any(|c| c.posted_req.is_some()) {
+				return Outcome::fail("C05:challenge-posted-after-hook-failure", format!("the challenge hook for {} failed ({:?}), yet the CA was told that the challenge is ready{}", id.expected, case.fail_hook, ctx_txt()));
+			}
+			expect_success = false;
+			stopped = true;
+			continue;
+		}
 		let (proof, raw, file_name) = match expected_proof(ty, &ch.token, &acct.jwk) {
 			Ok(x) => x,
 			Err(e) => return Outcome::Infra(e),
@@ -293,6 +326,12 @@ fn exec_bb_in(case: &BbCase, acmed: &std::path::Path, dir: &std::path::Path) -> 
 	}
 	if case.second_account_key.is_some() {
 		classes.push("two-accounts".into());
+	}
+	if case.fail_hook.is_some() {
+		classes.push("challenge-hook-fails".into());
+	}
+	if !case.processing.is_empty() {
+		classes.push("challenge-handed-out-processing".into());
 	}
 	if case.ids.iter().any(|i| i.ty == "ip") {
 		classes.push("ip".into());
